@@ -184,6 +184,7 @@ func replayScript(v *Violation) string {
 	var b strings.Builder
 	b.WriteString("#!/bin/sh\n# Replays a violation of " + v.Property + " (" + v.Oracle + ") without the explorer.\n")
 	b.WriteString("# usage: GOIT=/path/to/goit sh " + "this-file" + "\n# " + strings.ReplaceAll(v.Detail, "\n", "\n# ") + "\n")
+	b.WriteString("mkd() { d=$1; while [ \"$d\" != . ] && [ \"$d\" != / ]; do [ -f \"$d\" ] && rm -f \"$d\"; d=$(dirname \"$d\"); done; mkdir -p \"$1\"; }\n")
 	b.WriteString("GOIT=${GOIT:-goit}\ntmp=$(mktemp -d) && mkdir -p $tmp/root $tmp/home && cd $tmp/root || exit 2\n")
 	b.WriteString("export HOME=$tmp/home TZ=UTC NO_COLOR=1 VERIF_NOW=" + fixedNow + "\n")
 	for _, e := range v.Env {
@@ -212,15 +213,16 @@ func replayScript(v *Violation) string {
 			}
 		case "write":
 			if d := filepath.Dir(st.Path); d != "." {
-				b.WriteString("mkdir -p " + shQuote(d) + "\n")
+				b.WriteString("mkd " + shQuote(d) + "\n")
 			}
+			b.WriteString("[ -d " + shQuote(st.Path) + " ] && rm -rf " + shQuote(st.Path) + "\n")
 			b.WriteString("printf '%s' " + shQuote(string(st.Data)) + " > " + shQuote(st.Path) + "\n")
 		case "delete":
 			b.WriteString("rm -f " + shQuote(st.Path) + "\n")
 		case "rmdir":
 			b.WriteString("rm -rf " + shQuote(st.Path) + "\n")
 		case "mkdir":
-			b.WriteString("mkdir -p " + shQuote(st.Path) + "\n")
+			b.WriteString("mkd " + shQuote(st.Path) + "\n")
 		case "homewrite":
 			b.WriteString("printf '%s' " + shQuote(string(st.Data)) + " > \"$HOME\"/" + shQuote(st.Path) + "\n")
 		case "homedelete":
